@@ -36,6 +36,7 @@ type world struct {
 	nextCP   uint64
 	wait     time.Duration
 	seqNext  uint32 // when non-zero, the next request uses this sequence number
+	quiet    bool   // no events are written (scenarios judged by a line of their own)
 }
 
 func newWorld(c *ctx, o sysh.Opts) (*world, error) {
@@ -58,6 +59,9 @@ func (w *world) seq(p *sysh.Peer) uint32 {
 }
 
 func (w *world) emit(class string, nontrivial bool, ev map[string]interface{}) {
+	if w.quiet {
+		return
+	}
 	b, err := json.Marshal(ev)
 	if err != nil {
 		panic(err)
